@@ -391,8 +391,9 @@ def rule_r4(text, rules):
         text = text[:st[i].start] + new + text[st[bc].end:]
         rules.append("R4")
 
-def rule_r3(text, rules):
-    """split or-pattern arms of every `match` whose arms have top-level `|` alternatives"""
+def rule_r3(text, rules, only_guarded=False):
+    """split or-pattern arms of every `match` whose arms have top-level `|` alternatives
+    (only_guarded: only arms that also carry an `if` guard - Verus rejects or-pattern + guard outright)"""
     changed = True
     guard = 0
     while changed:
@@ -462,6 +463,9 @@ def rule_r3(text, rules):
                             guard_txt = " " + text[x.start:st[hi - 1].end]
                             alts[-1] = (lo, g)
                             break
+                    if only_guarded and not guard_txt:
+                        a = nxt
+                        continue
                     arms = []
                     for (lo, hi) in alts:
                         arms.append("%s%s => %s," % (text[st[lo].start:st[hi - 1].end], guard_txt, rhs))
@@ -614,6 +618,8 @@ def extract_item(path, selector, opts, directives, findings_open):
         text = rule_r4(text, rules)
         if "r3" in opts:
             text = rule_r3(text, rules)
+        else:
+            text = rule_r3(text, rules, only_guarded=True)
         if "lift" in opts:
             if "Self::" in text:
                 text = text.replace("Self::", ""); rules.append("R6")
